@@ -167,6 +167,11 @@ func (c12) Run(c *mon.Ctx, i int) {
 		g.InstallGuards()
 		defer g.DropGuards()
 	}
+	if gz, ok := w.(impl.GzipWriter); ok && r.Bool() {
+		// header fields of the earlier stream: a fresh Writer has none
+		gz.SetHeader(randHeader(r))
+		desc["h1_header_fields_set"] = true
+	}
 	_, pv, st = applyOps(w, d1.B, ops1)
 	if pv != nil {
 		desc["stack"] = st
